@@ -51,6 +51,9 @@ class _iadd_same:
     bound_note = "arithmetic: 1D with m<=2 bins, 2D with shape (1,m); contents symbolic"
     configs = staticmethod(_iadd_cfgs)
 
+    def thorough_extra():
+        return [{"dim": 1, "m": 4, "bins": "gapped", "d1": "int64", "d2": "float64"}, {"dim": 2, "m": 3, "bins": "fixed", "d1": "float64", "d2": "int64"}]
+
     def inputs(b):
         c = b.cfg
         return dict(self=mk_hist(b, "h", c.dim, c.m, c.bins, c.d1), other=mk_hist(b, "o", c.dim, c.m, c.bins, c.d2))
